@@ -21,7 +21,8 @@ const (
 	OpAppendMsg
 	OpMapMsg
 	OpUnknown
-	OpFill // set every required field of the message (recursively for required message fields)
+	OpFill  // set every required field of the message (recursively for required message fields)
+	OpTouch // Mutable on a list / map without adding anything (stored-but-empty composite)
 )
 
 // Slot is one population action, addressed by field number so that it applies
@@ -98,6 +99,8 @@ func Apply(m protoreflect.Message, s *Slot, res ExtResolver) {
 	switch s.Op {
 	case OpSet:
 		m.Set(fd, copyVal(s.Val))
+	case OpTouch:
+		m.Mutable(fd)
 	case OpAppend:
 		m.Mutable(fd).List().Append(copyVal(s.Val))
 	case OpMapPut:
@@ -264,6 +267,9 @@ func Alphabet(md protoreflect.MessageDescriptor, depth int, o Opt) []*Slot {
 		pfx := fmt.Sprintf("%d", fd.Number())
 		if ext {
 			pfx = "x" + pfx
+		}
+		if o.EmptyComposite && (fd.IsMap() || fd.IsList()) {
+			out = append(out, &Slot{Num: fd.Number(), Ext: ext, Op: OpTouch, Name: pfx + ".touch"})
 		}
 		switch {
 		case fd.IsMap():
